@@ -11,8 +11,8 @@ ASSUME = ["termination is decided on logical steps (token look-ups counted by ho
 
 
 # the same check interpreted by Miri: the parser sink reinterprets Vec<Option<Event>> and walks raw pointers
-MIRI = {"quick": ["--maxlen", "2", "--random", "1200", "--mutants", "160"],
-        "thorough": ["--maxlen", "3", "--random", "16000", "--mutants", "1600"], "shards": 16}
+MIRI = {"quick": ["--maxlen", "1", "--random", "256", "--mutants", "16", "--corpusfiles", "1"],
+        "thorough": ["--maxlen", "2", "--random", "2400", "--mutants", "240", "--corpusfiles", "2"], "shards": 16}
 
 
 def run(tier, seed):
